@@ -305,6 +305,17 @@ Section WF.
   Lemma wf_items_nth : forall fs i it l, wf_items fs l -> nth_error l i = Some it -> wf_cfg fs it.
   Proof. unfold wf_items. intros fs i it l H Hn. rewrite Forall_forall in H. apply H. eapply nth_error_In; eauto. Qed.
 
+  Lemma Forall_firstn' : forall (A : Type) (P : A -> Prop) n (l : list A), Forall P l -> Forall P (firstn n l).
+  Proof.
+    intros A P. induction n as [|n IH]; intros l H; [constructor|]. destruct l as [|x l]; [constructor|].
+    inversion H; subst. cbn [firstn]. constructor; [assumption | apply IH; assumption].
+  Qed.
+  Lemma Forall_skipn' : forall (A : Type) (P : A -> Prop) n (l : list A), Forall P l -> Forall P (skipn n l).
+  Proof.
+    intros A P. induction n as [|n IH]; intros l H; [exact H|]. destruct l as [|x l]; [constructor|].
+    inversion H; subst. cbn [skipn]. apply IH; assumption.
+  Qed.
+
   Lemma make_item_wf : forall w p pos vs fs' x w' it o, ok_fields fs' ->
     make_item w p pos vs fs' x = (w', Some it, o) -> wf_cfg fs' it.
   Proof.
@@ -360,6 +371,17 @@ Section WF.
       destruct (load_keys d w pre c fs dyn) as [[w1 c1] o1] eqn:E.
       assert (Hc1 : wf_cfg fs c1) by (eapply load_keys_wf; eauto).
       destruct o1; inversion H; subst; exact Hc1.
+    - destruct (fget F k fs) as [[f|d1 v1 f1|req vs' fs']|] eqn:Ef; try (inversion H; subst; exact Hw).
+      destruct (dget k (c_data c)) as [[v|c0|l]|] eqn:Eg; try (inversion H; subst; exact Hw).
+      assert (Hok' : ok_fields fs') by (apply (ok_node_list req vs'); eapply ok_fields_get; eauto).
+      destruct (make_item w (path_join pre k) (N.of_nat (length l)) vs' fs' x) as [[w1 it] o1] eqn:E.
+      destruct it as [it|]; [|inversion H; subst; exact Hw].
+      destruct o1; try (inversion H; subst; exact Hw). destruct c as [i0 d df dy]. inversion H; subst.
+      apply wf_cfg_data. pose proof Hw as Hw0. apply wf_cfg_data in Hw. apply wf_data_dset; [exact Hw|]. unfold wf_slot. rewrite Ef.
+      apply wf_val_list.
+      pose proof (wf_cfg_get _ _ _ _ Hw0 Eg) as Hl. unfold wf_slot in Hl. rewrite Ef in Hl. apply wf_val_list in Hl.
+      unfold wf_items in *. apply Forall_app. split; [apply Forall_firstn'; exact Hl|].
+      constructor; [eapply make_item_wf; eauto | apply Forall_skipn'; exact Hl].
   Qed.
 
   (* C01, one step: whatever the operation, wherever it is addressed, accepted or rejected *)
